@@ -13,6 +13,20 @@ use std::time::Instant;
 
 pub const VERIF: &str = "/verif";
 
+/// Where evidence, replays and per-run scratch go: /verif, unless a sensitivity sweep running
+/// from a scratch copy redirects them (VERIF_OUT_DIR) so that it never touches the real files.
+pub fn out_dir() -> String {
+    match std::env::var("VERIF_OUT_DIR") {
+        Ok(d) if !d.is_empty() => {
+            for sub in ["evidence", "replays", "work"] {
+                let _ = std::fs::create_dir_all(format!("{}/{}", d, sub));
+            }
+            d
+        }
+        _ => VERIF.to_string(),
+    }
+}
+
 #[derive(Clone, Debug, Serialize, Deserialize, PartialEq, Eq)]
 pub struct Viol {
     pub key: String,
@@ -397,7 +411,7 @@ pub fn check_main(def: &PropDef, tier: Tier) -> i32 {
         Tier::Thorough => def.cases.1,
     };
     let cases: u32 = std::env::var("VERIF_CASES").ok().and_then(|s| s.parse().ok()).unwrap_or(cases);
-    let work = format!("{}/work/{}-{}-{}", VERIF, def.id, tier.name(), std::process::id());
+    let work = format!("{}/work/{}-{}-{}", out_dir(), def.id, tier.name(), std::process::id());
     let _ = std::fs::create_dir_all(&work);
     let exe = std::env::current_exe().expect("exe");
     let mut children = Vec::new();
@@ -501,7 +515,7 @@ pub fn check_main(def: &PropDef, tier: Tier) -> i32 {
         "wall_s": wall,
         "violations": if first_violation.is_some() { 1 } else { 0 },
     });
-    write_json(&format!("{}/evidence/{}.json", VERIF, def.id), &evidence);
+    write_json(&format!("{}/evidence/{}.json", out_dir(), def.id), &evidence);
     println!(
         "{} {}: evaluations={} distinct_nontrivial={} nontrivial_fraction={:.2} inconclusive={} wall={:.1}s",
         def.id, tier.name(), merged.evaluations, distinct, frac, merged.inconclusive, wall
@@ -511,7 +525,7 @@ pub fn check_main(def: &PropDef, tier: Tier) -> i32 {
             merged.known_matched.get(&k).cloned().unwrap_or(0));
     }
     if let Some((w, key, msg, case)) = first_violation {
-        let path = format!("{}/replays/{}-seed{}-w{}.json", VERIF, def.id, seed, w);
+        let path = format!("{}/replays/{}-seed{}-w{}.json", out_dir(), def.id, seed, w);
         write_json(
             &path,
             &json!({"property": def.id, "seed": seed, "worker": w, "tier": tier.name(), "key": key, "msg": msg, "case": case}),
